@@ -1,0 +1,33 @@
+//go:build verif
+
+package tally
+
+// Contracts for the deductive verifier in /verif (comment-only; never compiled
+// into a normal build).
+
+//@ extern interface StatsReporter
+//@ extern interface CachedStatsReporter
+//@ extern interface BaseStatsReporter
+//@ extern interface CachedCount
+//@ extern interface CachedGauge
+//@ extern interface CachedTimer
+//@ extern interface CachedHistogram
+//@ extern interface CachedHistogramBucket
+//@ pure method Capabilities.Reporting
+//@ pure method Capabilities.Tagging
+//@ pure method BaseStatsReporter.Capabilities
+//@ closed interface Buckets = ValueBuckets, DurationBuckets
+
+//@ func mergeRightTags
+//@   property C04
+//@   ensures @nil_nil tagsLeft == nil && tagsRight == nil ==> result == nil
+//@   ensures @dom forall k string :: (k in result) <==> (k in tagsLeft || k in tagsRight)
+//@   ensures @right_wins forall k string :: k in tagsRight ==> result[k] == tagsRight[k]
+//@   ensures @left_kept forall k string :: k in tagsLeft && !(k in tagsRight) ==> result[k] == tagsLeft[k]
+//@   loop 1 invariant @l1a forall k string :: seen(k) ==> (k in result && result[k] == tagsLeft[k] && k in tagsLeft)
+//@   loop 1 invariant @l1b forall k string :: k in result ==> seen(k)
+//@   loop 1 invariant @l1c result != nil && result != tagsLeft && result != tagsRight
+//@   loop 2 invariant @l2a forall k string :: (k in result) <==> (k in tagsLeft || seen(k))
+//@   loop 2 invariant @l2b forall k string :: seen(k) ==> result[k] == tagsRight[k] && k in tagsRight
+//@   loop 2 invariant @l2c forall k string :: k in tagsLeft && !seen(k) ==> result[k] == tagsLeft[k]
+//@   loop 2 invariant @l2d result != nil && result != tagsLeft && result != tagsRight
